@@ -523,8 +523,31 @@ class GridsBattery:
                     if not ok:
                         lab = f"{self.name}[{cname}]::well-formed-targets-and-nesting[{mname},h={h}]"      # one label per input: a known finding never hides another input
                         viol.setdefault(lab, {"obligation": lab, "bounded": self.name, "witness": info})
+        # history: a second grid for the SAME model object after its parameters were reassigned (calibration) has the truncation
+        # bounds of the updated model -- nothing computed for the first grid may be reused
+        ev += 1
+        try:
+            from rpylib.model.utils import create_exponential_of_levy_model, ModelType
+            mkm = lambda eta1, eta2: create_exponential_of_levy_model(ModelType.HEM)(spot=100.0, r=0.05, d=0.02, sigma=0.10, p=0.6, eta1=eta1, eta2=eta2, intensity=5.0)
+            m1 = mkm(25.0, 40.0)
+            g1 = CTMCUniformGrid(h=0.05, model=m1)
+            par = m1.levy_model.parameters
+            par.eta1, par.eta2 = 8.0, 12.0
+            par.initialisation()
+            g2 = CTMCUniformGrid(h=0.05, model=m1)
+            g3 = CTMCUniformGrid(h=0.05, model=mkm(8.0, 12.0))
+            nu2 = m1.levy_triplet.nu
+            right = float(nu2.integrate(0.025, g2.axes[0][-1]) / nu2.integrate(0.025, np.inf))
+            if g2.truncations != g3.truncations or len(g2.axes[0]) != len(g3.axes[0]) or abs(right - 0.99999) > 1e-6:
+                lab = f"{self.name}[uniform]::second-grid-after-a-parameter-update-has-the-updated-truncation"
+                viol.setdefault(lab, {"obligation": lab, "bounded": self.name, "witness": {"model": "HEM eta (25, 40) -> (8, 12) on the same model object", "h": 0.05,
+                                      "first_grid_truncations": [float(v) for v in g1.truncations[0]], "second_grid_truncations": [float(v) for v in g2.truncations[0]],
+                                      "fresh_model_truncations": [float(v) for v in g3.truncations[0]], "right_tail_probability_of_the_second_grid": right}})
+        except Exception as e:
+            lab = f"{self.name}[uniform]::second-grid-after-a-parameter-update-has-the-updated-truncation"
+            viol.setdefault(lab, {"obligation": lab, "bounded": self.name, "witness": {"exception": f"{type(e).__name__}: {e}"}})
         return {"name": self.name, "evaluations": ev, "distinct_nontrivial": ev, "violations": list(viol.values()), "samples": samples,
-                "bound": f"models {sorted(ms)} x h in {H} x 3 constructors x 2 refinements"}
+                "bound": f"models {sorted(ms)} x h in {H} x 3 constructors x 2 refinements; one parameter-update history"}
 
     def replay(self, rec):
         r = self.run("thorough", 0)
